@@ -4079,7 +4079,10 @@ where
 
         for attempt in 0..HEURISTIC_REBUILD_ATTEMPTS {
             #[cfg(delaunay_verif)]
-            if attempt >= crate::verif::knob::get("rebuild.attempts", HEURISTIC_REBUILD_ATTEMPTS) {
+            if crate::verif::knob::is_set("rebuild.attempts")
+                && attempt
+                    >= crate::verif::knob::get("rebuild.attempts", HEURISTIC_REBUILD_ATTEMPTS)
+            {
                 break;
             }
             let seeds = if attempt == 0 {
